@@ -10,6 +10,8 @@ import (
 	"github.com/buildbarn/bb-storage/pkg/blobstore"
 	"github.com/buildbarn/bb-storage/pkg/blobstore/buffer"
 	"github.com/buildbarn/bb-storage/pkg/blobstore/completenesschecking"
+	"github.com/buildbarn/bb-storage/pkg/blobstore/configuration"
+	pb_blobstore "github.com/buildbarn/bb-storage/pkg/proto/configuration/blobstore"
 	"github.com/buildbarn/bb-storage/pkg/blobstore/slicing"
 	"github.com/buildbarn/bb-storage/pkg/digest"
 	"vsim/sim"
@@ -156,6 +158,9 @@ type c13Case struct {
 	Batch   int
 	MaxMsg  int
 	MaxTree int64
+	// Configured: the decorator is assembled by NewBlobAccessFromConfiguration
+	// with the AC creator (batch size is then the code's constant)
+	Configured bool
 
 	CASErrAt   int // index of the CAS call (FindMissing and Get counted together) that fails; -1 never
 	CASErrCode codes.Code
@@ -173,7 +178,7 @@ type c13Case struct {
 
 func (cs *c13Case) String() string {
 	var b strings.Builder
-	fmt.Fprintf(&b, "fn=%v inst=%q batch=%d maxMsg=%d maxTree=%d ac=%s", cs.Fn, cs.Inst, cs.Batch, cs.MaxMsg, cs.MaxTree, c13ACKindNames[cs.ACKind])
+	fmt.Fprintf(&b, "fn=%v inst=%q batch=%d maxMsg=%d maxTree=%d configured=%v ac=%s", cs.Fn, cs.Inst, cs.Batch, cs.MaxMsg, cs.MaxTree, cs.Configured, c13ACKindNames[cs.ACKind])
 	if cs.ACKind == c13ACReader {
 		fmt.Fprintf(&b, "(cuts=%v errAt=%d)", cs.ACCuts, cs.ACErrAt)
 	}
@@ -624,7 +629,18 @@ func runC13Case(c *sim.RunCtx, cs *c13Case) *c13CAS {
 		ctx, cancel := context.WithCancel(context.Background())
 		defer cancel()
 		cas.cancel = cancel
-		ba := completenesschecking.NewCompletenessCheckingBlobAccess(ac, cas, cs.Batch, cs.MaxMsg, cs.MaxTree)
+		var ba blobstore.BlobAccess
+		if cs.Configured {
+			var restore func()
+			ba, _, restore = buildCompositeWith(c, s, sim.NewClock(s),
+				configuration.NewACBlobAccessCreator(&configuration.BlobAccessInfo{BlobAccess: cas, DigestKeyFormat: digest.KeyWithoutInstance}, nil, cs.MaxMsg),
+				labelled(&pb_blobstore.BlobAccessConfiguration{Backend: &pb_blobstore.BlobAccessConfiguration_CompletenessChecking{CompletenessChecking: &pb_blobstore.CompletenessCheckingBlobAccessConfiguration{
+					Backend: labelConfig("ac"), MaximumTotalTreeSizeBytes: cs.MaxTree}}}, "ac"),
+				map[string]configuration.BlobAccessInfo{"ac": {BlobAccess: ac, DigestKeyFormat: digest.KeyWithInstance}})
+			defer restore()
+		} else {
+			ba = completenesschecking.NewCompletenessCheckingBlobAccess(ac, cas, cs.Batch, cs.MaxMsg, cs.MaxTree)
+		}
 		var b buffer.Buffer
 		if cs.Composite {
 			child := digest.MustNewDigest(cs.Inst, cs.Fn, RefHash(cs.Fn, []byte("child")), 5)
